@@ -544,6 +544,11 @@ impl Executor {
                     log::trace!("Converting bytes {:?} into an integer.", &input_byte_vector);
 
                     let bytes = input_byte_vector.into_bytes()?;
+                    // only a 32-byte string converts; check before copying it out, since the
+                    // string may be astronomically long while costing almost nothing to build
+                    if bytes.len() != 32 {
+                        return None;
+                    }
                     let bytes_vector: Vec<u8> = bytes.into();
 
                     let byte_vector_option: Option<[u8; 32]> = bytes_vector.try_into().ok();
